@@ -56,6 +56,19 @@ func parseVerdict(out string) string {
 // solveRace runs all solvers on the file; the first definite (sat/unsat) answer wins.
 // If waitAll is set, all solvers are run to completion and their verdicts recorded.
 func solveRace(file string, timeoutS int, waitAll bool) SolveResult {
+	if !waitAll {
+		// stage 1: the usually fastest solver alone with a short budget (saves two process launches per goal)
+		t0 := time.Now()
+		argv := solvers[0].argv(file, min(timeoutS, 3))
+		var buf bytes.Buffer
+		cmd := exec.Command(argv[0], argv[1:]...)
+		cmd.Stdout = &buf
+		cmd.Stderr = &buf
+		cmd.Run()
+		if v := parseVerdict(buf.String()); v == "sat" || v == "unsat" {
+			return SolveResult{Verdict: v, Solver: solvers[0].name, TimeS: time.Since(t0).Seconds(), Output: buf.String(), All: map[string]string{solvers[0].name: v}}
+		}
+	}
 	type one struct {
 		name    string
 		verdict string
